@@ -7,7 +7,7 @@ PROP = 'C06'
 
 def make(rd, tier, seed, ev):
     fam = gen_problems.temporal_family()
-    gen = plancheck.write_problems(rd, [(n, t) for n, t, ok in fam])
+    gen = plancheck.write_problems(rd, [(n, t) for n, t, ok in fam]) + plancheck.feature_problems(rd, ['inheritance', 'timeline'], seed, tier)[0]
     repo = plancheck.repo_problems()
     if tier == 'quick':
         repo = [p for p in repo if not p[0].startswith(('GOAC', 'Matera'))] + [p for p in repo if p[0] in ('GOAC_2Pic_2Wind', 'Matera_05')]
@@ -20,7 +20,7 @@ def run(tier, seed):
         rule='{fact, goal} x {plain Interval predicate, plain Impulse predicate, StateVariable, ReusableResource, Agent interval, '
              'Agent impulse} x {declared directly, introduced by a rule} x 10 requested interval time patterns / 6 impulse '
              'patterns (consistent, reversed, zero length, beyond horizon, before origin, negative or contradictory duration, at '
-             'the bounds), plus every repository example; in every reported solution each active interval atom satisfies origin '
+             'the bounds), plus the inheritance family (the predicate reaches Interval / Impulse directly, through an empty predicate, a non-empty one or two levels x fact / goal x direct / rule x plain / agent) and the feature-cross timeline family, plus every repository example; in every reported solution each active interval atom satisfies origin '
              '<= start <= end <= horizon and duration = end - start >= 0, each active impulse atom origin <= at <= horizon (exact '
              'arithmetic on the reported values); distinct_nontrivial = (configuration, problem) pairs whose solution has an '
              'active interval or impulse atom',
